@@ -8,25 +8,32 @@ CFG = {
     "gates": [
         {"files": ["banyand/measure/snapshot.go", "banyand/measure/introducer.go", "banyand/measure/flusher.go", "banyand/measure/merger.go", "banyand/measure/tstable.go",
                    "banyand/stream/snapshot.go", "banyand/stream/introducer.go", "banyand/stream/flusher.go", "banyand/stream/merger.go", "banyand/stream/tstable.go",
+                   "banyand/trace/snapshot.go", "banyand/trace/introducer.go", "banyand/trace/flusher.go", "banyand/trace/merger.go", "banyand/trace/tstable.go",
                    "pkg/run/goroutine.go", "pkg/timestamp/scheduler.go"], "mode": "A"},
         # cooperative locks in the segment life cycle: the idle reclaimer holds segment.mu while it waits for a shard's loops to exit (tsTable.Close); with plain
         # locks a loop parked at a gate plus a snapshot request blocked on that mutex is a hang of the harness (seen on the first runs)
         {"files": ["banyand/internal/storage/segment.go", "banyand/internal/storage/tsdb.go", "banyand/internal/storage/rotation.go"], "mode": "B"},
     ],
-    "level_text": ("schedule exploration on a real standalone node (measure or stream engine, liaison front-end, query path) in a fake-clock bubble on a journaling disk shim: a tape-chosen history of acknowledged "
+    "level_text": ("schedule exploration on a real standalone node (measure, stream or trace engine, liaison front-end, query path) in a fake-clock bubble on a journaling disk shim: a tape-chosen history of acknowledged "
                    "batches and clock advances (flushes, merges, day rotation, idle-closing of older segments after 1 h) is followed by a race phase in which the production snapshot request "
                    "(data.TopicSnapshot published on the node's local pipeline, exactly what the liaison Snapshot RPC does) runs in its own goroutine while writers, flusher, merger, introducer, "
                    "rotation and idle-close goroutines are parked at armed gates (tools/gaterw, mode A) and released one at a time by the tape, with clock advances in between; afterwards more batches "
                    "are written and flushed, then the snapshot directory is examined, turned into a data directory (either by the real backup upload + restore download against the file:// store "
                    "or by the same file-by-file copy) and a NEW node is booted on it and queried for everything"),
-    "level_note": ("measure/stream table files: gates outside critical sections (mode A), interleavings inside the tsTable mutex are not explored; storage segment.go/tsdb.go/rotation.go: cooperative locks (mode B), a holder of segment.mu or the controller lock may park; bluge (series index) and pkg/fs run atomically between gates. "
+    "level_note": ("measure/stream/trace table files: gates outside critical sections (mode A), interleavings inside the tsTable mutex are not explored; storage segment.go/tsdb.go/rotation.go: cooperative locks (mode B), a holder of segment.mu or the controller lock may park; bluge (series index) and pkg/fs run atomically between gates. "
                    "Retention deletes nothing in these runs (TTL 30 d; the cron job and the rotation task do run). Value fidelity of restored rows is C01's subject: rows are attributed by their unique write id and timestamp. "
                    "Disk errors are injected only into link/mkdir calls below the snapshots directory. The snapshot listener holds its snapshotMux for the whole request; the harness drops that mutex from "
                    "gaterw's held-lock count at the request's first disk operation (one request per run), otherwise no gate below it would park. Engine loops never park in front of their select (Go picks at "
-                   "random among ready cases) and actor names are ordered number-aware because spawn ordinals shift with the number of schema-watcher workers (= GOMAXPROCS)"),
+                   "random among ready cases) and actor names are ordered number-aware because spawn ordinals shift with the number of schema-watcher workers (= GOMAXPROCS). "
+                   "Scenario trace-snapshot: a row is a span (unique write id tag), a unit is the spans of one batch per (day, trace id); everything is read back by trace_id IN (all ids); tag values other than the "
+                   "identity tags are not compared (C01's subject; C19_TRACE_TAGS=1 compares them). The trace engine has no min-merge-multiplier switch: instead 2 of 5 runs send equally sized batches of 'now' traffic "
+                   "for two long-running traces (parts of one table of similar size, which the merge policy merges) and 1 of 5 equally sized batches anywhere. Gates of banyand/trace (mode A) sit between the pin of a "
+                   "table's parts and each hard link (snapshot.go:TakeFileSnapshot#2/#3); in half of the runs (side tape) the request, once chosen, runs on until it is parked there. The trace merger's lane workers "
+                   "(count = GOMAXPROCS/2 per table) and its dispatcher are chained by channels and timers: about 1 in 50 trace runs differed between GOMAXPROCS 1 and 4 in the self-test (a merge parked in "
+                   "mergeBlocks at one setting and not yet dispatched at the other); the package's global semaphores are fixed at 4 slots"),
     "budget": {"quick": 60, "thorough": 1200},
     "det_n": {"quick": 24, "thorough": 64},
-    "rule": ("each seed draws engine (measure 3 : stream 2), schema (1-2 shards), flush timeout 1/3/10 s, merge fan-in 2-6, eager merging (1 in 2), 2-9 history operations (batch of 1-60 rows spanning 1 s..2 days / "
+    "rule": ("each seed draws engine (measure 3 : stream 2 : trace 2), schema (1-2 shards), flush timeout 1/3/10 s, merge fan-in 2-6, eager merging (1 in 2), 2-9 history operations (batch of 1-60 rows spanning 1 s..2 days / "
              "advance 0.5 s..26 h), an optional idle period of 75-200 min (older segments idle-close), 0-2 late batches; then the race: gates on in 4 of 5 runs (the request and the concurrent writers park at every "
              "site they reach; engine goroutines park only in the middle of a flush/merge and/or of an idle-close/reopen/retention pass, per run), run-until-yield bursts of 1/4/13/51 gates, step limit 40/150/400/1000, "
              "0-2 concurrent writers, 0-3 clock advances of 0.5 s..11 min (favoured while the request is in progress), optionally one injected EIO on the k-th link or mkdir below the snapshots directory; afterwards "
@@ -35,10 +42,10 @@ CFG = {
     "expected_probes": ["fault.stale_manifest_tmp_in_shard_root", "reach.snapshot_ok", "reach.restored_and_compared", "reach.restored_nonempty", "reach.snapshot_raced_writer", "reach.snapshot_raced_maintenance",
                         "reach.closed_segment_in_snapshot", "reach.closed_segments_stayed_closed", "reach.restore_via_backup_tool", "reach.restore_via_copy",
                         "reach.post_snapshot_batches_excluded", "reach.snapshot_older_than_acknowledged_state", "reach.flush_during_snapshot_request",
-                        "reach.advance_while_request_links_a_table", "fault.link_eio", "fault.mkdir_eio", "reach.failed_snapshot_reported"],
+                        "reach.advance_while_request_links_a_table", "reach.merge_during_snapshot_request", "fault.link_eio", "fault.mkdir_eio", "reach.failed_snapshot_reported"],
     "real_vs_stub": {
-        "real": ["measure/stream snapshotListener.Rev, takeGroupSnapshot, storage database.TakeFileSnapshot, segment.snapshotInto/snapshotOpen/snapshotClosed, tsTable.TakeFileSnapshot/createMetadata, pkg/fs CreateHardLink, bluge Backup of the series index",
-                 "write path, introducer, flusher, merger, gc, rotation, idle reclaimer (all live during the snapshot)", "banyand/backup backupSnapshot + restoreByName with pkg/fs/remote/local",
+        "real": ["measure/stream/trace snapshotListener.Rev (trace: standaloneSnapshotListener), takeGroupSnapshot, storage database.TakeFileSnapshot, segment.snapshotInto/snapshotOpen/snapshotClosed, tsTable.TakeFileSnapshot/createMetadata (trace: incl. sidx TakeFileSnapshot of the ordered indexes), pkg/fs CreateHardLink, bluge Backup of the series index",
+                 "write path, introducer, flusher, merger (trace: dispatcher + lane workers), gc, rotation, idle reclaimer (all live during the snapshot)", "banyand/backup backupSnapshot + restoreByName with pkg/fs/remote/local",
                  "start-up of a node on the restored directory, query path"],
         "stub": ["syscalls below pkg/fs: real files on tmpfs + journal + error injection (simos)", "metadata registry (simmeta)", "gRPC transport (the Snapshot RPC's one-line body is replicated: Publish on the local pipeline)", "clock (testing/synctest)"],
     },
